@@ -88,7 +88,7 @@ theorem dist_description_reads_back (fam : Str) (n : Nat) (params : List (Str ×
         · -- distinct names
           have : kp' = kp := nodup_fst_inj params hd kp' kp hkp' hkp h1
           rw [← h2, this]
-    rw [hf, Option.bind_some, toDouble_value (Or.inl rfl) kp.2 (hp kp hkp).2.1]
+    rw [hf, Option.bind_some, toDouble_value sane_default.1 kp.2 (hp kp hkp).2.1]
     rfl
   have hm : ∀ (l : List (Str × DecParts)), (∀ kp ∈ l, kp ∈ params) →
       (l.map (·.1)).mapM (fun k => ((mapFind k (mapOfList (paramArgs n params))).bind (toDouble '.' 'e')).map
